@@ -276,6 +276,9 @@ def run(rep, work, tier, seed):
         "the sync form does not - modelled per form",
         "unhashable arguments are outside the stated key alphabet",
     ]
+    # the decorator stacked with the others (Stack.tla): every layer acts on the layer below it
+    from props.stack_common import stack_legs
+    stack_legs(rep, work, tier, "cache")
     return rep.finish(exhaustive=True,
                       rule="all call/advance histories up to MaxOps over NKeys keys x receivers x outcome(value|raises) for "
                            "every form/limit/expiration; every edge incl. a Drain edge from every state replayed into the "
@@ -284,6 +287,9 @@ def run(rep, work, tier, seed):
 
 def replay(rep, record):
     from harness.graph import parse_label
+    if record.get("spec") == "Stack":
+        from props.stack_common import replay_stack
+        return replay_stack(record)
     if record.get("spec") == "CacheFlight":
         from props.c13 import replay as r13
         return r13(rep, record)
